@@ -1,7 +1,7 @@
 /- C05 line-protocol driver: `lake env lean --run Verif/C05/Driver.lean` -/
 import Verif.Common.Proto
 import Verif.Common.SemJson
-import Verif.C05.Model
+import Verif.C05.Api
 open Lean Verif.Proto Verif.Sem Verif.Sem.J Verif.C05
 
 namespace Verif.C05.Driver
@@ -33,44 +33,104 @@ def ofAddlEntry (j : Json) : Except String (Var × List (Role × Var)) := do
   | [s, es] => pure (← ofVar s, ← (← es.getArr?).toList.mapM ofEdge)
   | _ => throw "bad addl entry"
 
-def ofPM (j : Json) : Except String PM :=
+/-- the `predicate_modifiers` argument: "std" (`True`), "off" (a falsy value), a constant mapping, or
+one of the named user functions of `Api.lean` ("fn:std" is `eds.find_predicate_modifiers` itself) -/
+def ofPM (j : Json) : Except String PMArg :=
   match j with
-  | Json.str "off" => pure .off
-  | Json.str "std" => pure .std
+  | Json.str "off" => pure (.bool false)
+  | Json.str "std" => pure (.bool true)
+  | Json.str "fn:std" => pure (.fn (fun e m r => findPM e m (some r)))
+  | Json.str "fn:isolated" => pure (.fn ufIsolated)
+  | Json.str "fn:reps" => pure (.fn ufReps)
+  | Json.str "fn:raise" => pure (.fn ufRaise)
+  | Json.str s => throw s!"bad pm {s}"
   | _ => do
     let a ← (← (← j.getObjVal? "custom").getArr?).toList.mapM ofAddlEntry
-    pure (.custom a)
+    pure (.fn (fun _ _ _ => .ok a))
 
-def handleOne (m : MRS) (c : Json) : Except String Json := do
+/-- the `representative_priority` argument -/
+def ofKey (m : MRS) (s : String) : Except String (Option Key) :=
+  match s with
+  | "default" => pure none
+  | "reverse" => pure (some (keyReverse m))
+  | "const" => pure (some keyConst)
+  | "predlen" => pure (some (keyPredLen m))
+  | _ => throw s!"bad prio {s}"
+
+def ofDoc (j : Json) : Except String Doc := do
+  pure { lnk := ← fieldOpt ofLnk j "lnk",
+         surface := ← fieldOpt (fun x => x.getStr?) j "surface",
+         identifier := ← fieldOpt (fun x => x.getStr?) j "identifier" }
+
+def jDoc (d : Doc) : Json := Json.mkObj [
+  ("lnk", jOpt jLnk d.lnk), ("surface", jOpt Json.str d.surface), ("identifier", jOpt Json.str d.identifier)]
+
+def jAddl (a : EdgeMap) : Json :=
+  jList (fun (x : Var × List (Role × Var)) => Json.arr #[jVar x.1, jList jEdge x.2]) a
+
+def jResult (m : MRS) (d : Doc) (e : EDS) (w : List Warn) : Json :=
+  jOk (Json.mkObj [
+    ("ids", jList jVar m.ids),
+    ("top", jOpt jVar e.top),
+    ("nodes", jList jENode e.nodes),
+    ("warnings", jList (fun x => Json.str (warnTag x)) w),
+    ("doc", jDoc d)])
+
+def handleOne (m : MRS) (d : Doc) (c : Json) : Except String Json := do
   let pm ← ofPM (← c.getObjVal? "pm")
   let uniq ← getBool c "uniq"
+  let key ← ofKey m ((c.getObjVal? "prio" >>= Json.getStr?).toOption.getD "default")
+  let path := (c.getObjVal? "path" >>= Json.getStr?).toOption.getD "direct"
   if !m.idsDistinct then
     return Json.mkObj [("unmodelled", Json.str "dup_ids"), ("ids", jList jVar m.ids)]
-  match fromMrsRaw pm m with
-  | .error e => pure (jErr (errTagE e))
-  | .ok (raw, _) =>
-    if uniq && !idOrderDetermined m raw.nodes then
-      return Json.mkObj [("unmodelled", Json.str "set_order"), ("ids", jList jVar m.ids)]
-    match fromMrs pm uniq m with
+  match path with
+  | "findpm" =>
+    -- `e = from_mrs(m, False, False, key); find_predicate_modifiers(e, m)` and the same call with
+    -- `representatives=scope.representatives(m, priority=key)`
+    match fromMrsApi (.bool false) false key m with
     | .error e => pure (jErr (errTagE e))
-    | .ok (e, w) =>
-      pure (jOk (Json.mkObj [
-        ("ids", jList jVar m.ids),
-        ("top", jOpt jVar e.top),
-        ("nodes", jList jENode e.nodes),
-        ("warnings", jList (fun x => Json.str (warnTag x)) w)]))
+    | .ok (e0, _) =>
+      match findPM e0 m none, representativesK m key with
+      | .error e, _ => pure (jErr (errTagE e))
+      | _, .error e => pure (jErr (errTag e))
+      | .ok a, .ok reps =>
+        match findPM e0 m (some reps) with
+        | .error e => pure (jErr (errTagE e))
+        | .ok a2 => pure (jOk (Json.mkObj [("ids", jList jVar m.ids), ("addl", jAddl a), ("addl_reps", jAddl a2)]))
+  | "staged" =>
+    match stagedApi false key m with
+    | .error e => pure (jErr (errTagE e))
+    | .ok (raw, _) =>
+      if uniq && !idOrderDetermined m raw.nodes then
+        return Json.mkObj [("unmodelled", Json.str "set_order"), ("ids", jList jVar m.ids)]
+      match stagedApi uniq key m with
+      | .error e => pure (jErr (errTagE e))
+      | .ok (e, w) => pure (jResult m d e w)
+  | "direct" =>
+    match fromMrsApi pm false key m with
+    | .error e => pure (jErr (errTagE e))
+    | .ok (raw, _) =>
+      if uniq && !idOrderDetermined m raw.nodes then
+        return Json.mkObj [("unmodelled", Json.str "set_order"), ("ids", jList jVar m.ids)]
+      match fromMrsDoc pm uniq key d m with
+      | .error e => pure (jErr (errTagE e))
+      | .ok (e, d', w) => pure (jResult m d' e w)
+  | _ => throw s!"bad path {path}"
 
 def handle (j : Json) : Except String Json := do
   let op ← getStr j "op"
   if op != "from_mrs" then throw s!"bad op {op}"
   let m ← ofMRS (← j.getObjVal? "m")
+  let d ← match j.getObjVal? "doc" with
+    | .ok jd => ofDoc jd
+    | .error _ => pure {}
   let cfgs ← getArr j "configs"
-  let answers ← cfgs.mapM (handleOne m)
+  let answers ← cfgs.mapM (handleOne m d)
   -- "convert – edit in place – convert again": the same configurations on the edited content
   match j.getObjVal? "m2" with
   | .ok j2 =>
     let m2 ← ofMRS j2
-    let answers2 ← cfgs.mapM (handleOne m2)
+    let answers2 ← cfgs.mapM (handleOne m2 d)
     pure (Json.arr (answers ++ answers2).toArray)
   | .error _ => pure (Json.arr answers.toArray)
 
